@@ -27,6 +27,7 @@ class Engine:
             self.source_nodes = {id(f): f.node for f in fs}
             for f, n in new:
                 f.node = n
+            self._canon_sanity(fs)
         self.eff = make_effects(self.p)
         from .rules import cache as _cache
 
@@ -34,6 +35,24 @@ class Engine:
         self._cfgs = {}
         self._must = {}
         self._ccfgs = {}
+
+    @staticmethod
+    def _canon_sanity(fs):
+        """fail closed on a canonicaliser defect: a local that comes from a written-out helper (its name carries the helper's) and is read must be bound in the function"""
+        for f in fs:
+            bound, loaded = set(), set()
+            for n in ast.walk(f.node):
+                if isinstance(n, ast.Name):
+                    (loaded if isinstance(n.ctx, ast.Load) else bound).add(n.id)
+                elif isinstance(n, ast.arg):
+                    bound.add(n.arg)
+                elif isinstance(n, (ast.FunctionDef, ast.ClassDef)):
+                    bound.add(n.name)
+                elif isinstance(n, ast.ExceptHandler) and n.name:
+                    bound.add(n.name)
+            dangling = sorted(k for k in loaded - bound if "__" in k and not k.startswith("__"))
+            if dangling:
+                raise AnalysisError("canonical form of %s reads %s, which it never binds (defect of the canonicaliser - nothing is claimed)" % (f.qualname, dangling))
 
     def cfg(self, func, extra_raises=None):
         if extra_raises is not None:
